@@ -180,6 +180,10 @@ def main(prop, tier="quick", seed=0, replay=None, only=None, jobs=None):
     os.replace(tmp, os.path.join(evdir, prop + ".json"))
     print(f"{prop} tier={tier} seed={seed}: configs={len(results)} " + " ".join(f"{k}={v}" for k, v in tot.items() if v)
           + f" exhaustive={exhaustive} new_violations={len(viol_new)} known={len(viol_known)} wall={wall:.1f}s")
+    # violations are genuine whatever else happened (each was re-played on the real code): exit 1.  Machinery errors alone: exit 2 (the run
+    # decided nothing for those configurations; on a changed tree they are usually a consequence of the change, see DESIGN 6)
+    if viol_new:
+        return 1
     if merr:
         return 2
-    return 1 if viol_new else 0
+    return 0
